@@ -9,6 +9,7 @@ import IbcVerif.Driver.Keys
 import IbcVerif.Driver.Ident
 import IbcVerif.Driver.Delay
 import IbcVerif.Driver.Version
+import IbcVerif.Driver.Router
 open Lean
 namespace IbcVerif.Driver.Pure
 open IbcVerif.J
@@ -20,6 +21,7 @@ def handlers : List (String → Json → Option (Except String Json)) :=
   , IbcVerif.Driver.Ident.handle
   , IbcVerif.Driver.Delay.handle
   , IbcVerif.Driver.Version.handle
+  , IbcVerif.Driver.Router.handle
   ]
 
 def handle (f : String) (j : Json) : Except String Json :=
